@@ -17,7 +17,25 @@ def wire_page_size(fetch_size):
     return fetch_size if fetch_size else None
 
 
+REQUEST_OPTIONS = ('target', 'consistency', 'serial_consistency', 'page_size', 'timeout', 'retry_policy', 'row_factory')
+
+
+def target(first_of_policy, explicit_host=None):
+    """where a request of the execution goes first: the host the caller named, otherwise the first host of
+    the plan of the load-balancing policy in effect"""
+    return first_of_policy if explicit_host is None else explicit_host
+
+
+def request_options(page_no, resolved):
+    """One execution resolves its options once; every request made for it - the first one and each
+    follow-up that fetches a later page - carries exactly those (page_no does not enter)."""
+    return dict((k, resolved[k]) for k in REQUEST_OPTIONS if k in resolved)
+
+
 def selftest():
     assert effective(UNSET, 5) == 5 and effective(None, 5) is None and effective(0, 5) == 0 and effective(7, 5) == 7
     assert wire_page_size(0) is None and wire_page_size(None) is None and wire_page_size(7) == 7
+    r = dict(target='b', consistency=0, serial_consistency=None, page_size=7, timeout=0.0, retry_policy='p', row_factory='f', other=1)
+    assert request_options(1, r) == request_options(3, r) == dict((k, v) for k, v in r.items() if k != 'other')
+    assert target('a') == 'a' and target('a', 'b') == 'b'
     return True
